@@ -1,9 +1,11 @@
 CRDT = {"dir": "consensus/crdt", "pkgname": "crdt"}
-FILES = ["crdt/c02_rig_test.go", "crdt/c02_batch_test.go"]
+FILES = ["crdt/c02_rig_test.go", "crdt/c02_batch_test.go", "crdt/c02_set_test.go"]
 
 SPEC = {
     "go": [dict(CRDT, files=FILES, test="TestVerifC02Batch", n_quick=120, n_thorough=1200,
-                shards_quick=2, shards_thorough=8, timeout_quick=600, timeout_thorough=3000)],
+                shards_quick=2, shards_thorough=8, timeout_quick=600, timeout_thorough=3000),
+           dict(CRDT, files=FILES, test="TestVerifC02Set", n_quick=400, n_thorough=12000,
+                shards_quick=4, shards_thorough=12, timeout_quick=600, timeout_thorough=3000)],
     "rule": "TODO",
     "codes": {1: "model_eq_impl (C02)", 10: "spec_okb C02: accepted operations are taken in submission order, none lost",
               11: "spec_okb C02: refusal exactly when the queue is full, a refused operation has no effect",
@@ -11,8 +13,13 @@ SPEC = {
               13: "spec_okb C02: commit when the batch reaches its age limit",
               14: "spec_okb C02: the batch worker never stops taking accepted operations",
               15: "spec_okb C02: committed operations take effect in submission order per CID",
-              16: "spec_okb C02: every change of the pinset reaches the pin tracker"},
-    "tags": {1: "crdt-value-divergence-tombstoned-higher-priority", 2: "crdt-republish-same-priority-after-heads-failure"},
+              16: "spec_okb C02: every change of the pinset reaches the pin tracker",
+              20: "spec_okb C02: replicas that exchanged all updates hold the same set of CIDs",
+              21: "spec_okb C02: replicas that exchanged all updates hold the same pin for every CID",
+              22: "spec_okb C02: every change a merge makes to a replica's pinset has its hook",
+              23: "spec_okb C02: a local write takes effect at once, in submission order per CID"},
+    "tags": {1: "crdt-value-divergence-tombstoned-higher-priority", 2: "crdt-republish-same-priority-after-heads-failure",
+             3: "crdt-value-divergence-duplicate-key-in-delta"},
     "trusted": [],
     "level_text": "TODO",
     "level_note": "TODO",
